@@ -45,6 +45,17 @@ pub struct ExtSpec {
 }
 
 impl ExtSpec {
+    /// A chain whose last entry is a mandatory extension (id < 0x0100) with the same id as the
+    /// protocol type passed IS the final-mandatory case, whatever the generator called it.
+    pub fn normalised(&self, ptype: u16) -> ExtSpec {
+        let mut c = self.clone();
+        if let Some(l) = c.entries.last() {
+            if l.id < 0x100 && l.id == ptype {
+                c.final_ext = true;
+            }
+        }
+        c
+    }
     pub fn to_crate(&self) -> Option<Vec<Extension>> {
         let mut v = Vec::new();
         for e in &self.entries {
@@ -171,6 +182,8 @@ impl Sender {
         // a PDU above 65535 bytes can never have been started by encap: continuation calls on it
         // are only judged for totality / atomicity (C09) and preview agreement (C18)
         let mask = if spec.func == Func::Frag && spec.pdu.len() > 65535 { mask & (O_C09 | O_C18) } else { mask };
+        let norm_exts = spec.exts.map(|e| e.normalised(spec.ptype));
+        let spec = &CallSpec { func: spec.func, pdu: spec.pdu, frag_id: spec.frag_id, ptype: spec.ptype, label: spec.label, exts: norm_exts.as_ref(), ctx: spec.ctx, buf_len: spec.buf_len };
         let bl = spec.buf_len;
         if self.buf.len() < bl {
             self.buf.resize(bl, 0);
@@ -514,10 +527,11 @@ impl Sender {
                 }
                 if spec.func == Func::Frag {
                     // payload length actually written by the real call
-                    let c1 = spec.ctx.unwrap();
+                    // (read off the emitted packet: GSE length minus frag id and, for an end packet, CRC)
+                    let gl = (u16::from_be_bytes([self.buf[0], self.buf[1]]) & 0x0FFF) as usize;
                     let written = match ctx {
-                        Some(c2) => (c2.len_pdu_frag() as usize).wrapping_sub(c1.len_pdu_frag() as usize),
-                        None => spec.pdu.len().wrapping_sub(c1.len_pdu_frag() as usize),
+                        Some(_) => gl.wrapping_sub(1),
+                        None => gl.wrapping_sub(5),
                     };
                     if v.pdu_len() != written {
                         rep.violation("C18", sig("different-payload-length"), || format!("preview of {} says payload {}, real call wrote {}", Self::describe(spec), v.pdu_len(), written), replay);
